@@ -420,12 +420,21 @@ impl Monitor for PayMonitor {
 							let _ = before;
 							// indistinguishable twins (same channel, hash, amount, expiry): the library knows which one it
 							// forwarded, the pairing above guessed; if this one is paired and a twin is not, swap
-							if self.hs[i].down.is_some() {
+							if let Some(my_down) = self.hs[i].down {
 								let me = self.hs[i].clone();
-								if let Some(t) = self.hs.iter().position(|t| t.to == me.to && t.from == me.from && (t.chan, t.id) != (me.chan, me.id) && t.hash == me.hash && t.amt == me.amt && t.cltv == me.cltv && t.down.is_none() && !t.fail_emitted && !t.fulfil_emitted) {
-									let d = self.hs[i].down.take();
-									self.hs[t].down = d;
-									self.hs[d.unwrap()].up = Some(t);
+								let my_down_dead = matches!(self.phase(&self.hs[my_down]), HtlcPhase::Resolved { fulfilled: false });
+								if !my_down_dead {
+									// a twin that was not failed yet and whose own downstream twin is gone (or never existed)
+									let cand = self.hs.iter().position(|t| t.to == me.to && t.from == me.from && (t.chan, t.id) != (me.chan, me.id) && t.hash == me.hash && t.amt == me.amt && t.cltv == me.cltv && !t.fail_emitted && !t.fulfil_emitted && t.down.map(|d| matches!(self.phase(&self.hs[d]), HtlcPhase::Resolved { fulfilled: false })).unwrap_or(true));
+									if let Some(t) = cand {
+										let td = self.hs[t].down;
+										self.hs[t].down = Some(my_down);
+										self.hs[my_down].up = Some(t);
+										self.hs[i].down = td;
+										if let Some(d) = td {
+											self.hs[d].up = Some(i);
+										}
+									}
 								}
 							}
 							self.hs[i].fail_emitted = true;
